@@ -43,6 +43,8 @@ enum Leaf {
     LocalTee(usize),
     I32Add,
     I32Eqz,
+    I64Const(i64),
+    F32Const(u32),
     /// target = number of enclosing model sequences to skip (0 = innermost)
     Br(usize),
     BrIf(usize),
@@ -61,6 +63,8 @@ enum Node {
 
 struct Gen<'a, 'b> {
     ch: &'a mut Ch<'b>,
+    i64_locals: Vec<usize>,
+    f32_locals: Vec<usize>,
     /// i32 locals usable by statements (indices into the model's local list)
     i32_locals: Vec<usize>,
     budget: usize,
@@ -80,7 +84,7 @@ impl<'a, 'b> Gen<'a, 'b> {
             }
             self.budget -= 1;
             let l = |g: &mut Self| -> usize { *g.ch.pick(&g.i32_locals) };
-            match self.ch.below(14) {
+            match self.ch.below(15) {
                 0 | 1 => {
                     let k = *self.ch.pick(crate::ch::I32_POOL);
                     out.push(Node::Leaf(Leaf::I32Const(k)));
@@ -166,6 +170,24 @@ impl<'a, 'b> Gen<'a, 'b> {
                     out.push(Node::Leaf(Leaf::BrTable(ts, d)));
                 }
                 12 => out.push(Node::Leaf(if self.ch.bool() { Leaf::Return } else { Leaf::Unreachable })),
+                13 => {
+                    // locals of other types: copy or initialise
+                    let pool = if self.ch.bool() { self.i64_locals.clone() } else { self.f32_locals.clone() };
+                    if pool.is_empty() {
+                        continue;
+                    }
+                    let is64 = self.i64_locals.contains(&pool[0]);
+                    let a = *self.ch.pick(&pool);
+                    let b = *self.ch.pick(&pool);
+                    if self.ch.bool() {
+                        out.push(Node::Leaf(Leaf::LocalGet(a)));
+                    } else if is64 {
+                        out.push(Node::Leaf(Leaf::I64Const(self.ch.u64() as i64)));
+                    } else {
+                        out.push(Node::Leaf(Leaf::F32Const(self.ch.u32())));
+                    }
+                    out.push(Node::Leaf(Leaf::LocalSet(b)));
+                }
                 _ => {
                     let k = self.ch.u32() as i32;
                     let a = l(self);
@@ -182,6 +204,8 @@ impl<'a, 'b> Gen<'a, 'b> {
 pub enum Exp {
     Op(&'static str),
     Const(i32),
+    Const64(i64),
+    ConstF32(u32),
     Local(&'static str, usize),
     Br(&'static str, u32),
     BrTable(Vec<u32>, u32),
@@ -205,6 +229,8 @@ fn flatten(nodes: &[Node], stack: &mut Vec<bool>, out: &mut Vec<Exp>) {
                 Leaf::LocalTee(a) => out.push(Exp::Local("LocalTee", *a)),
                 Leaf::I32Add => out.push(Exp::Op("I32Add")),
                 Leaf::I32Eqz => out.push(Exp::Op("I32Eqz")),
+                Leaf::I64Const(k) => out.push(Exp::Const64(*k)),
+                Leaf::F32Const(k) => out.push(Exp::ConstF32(*k)),
                 Leaf::Br(t) => out.push(Exp::Br("Br", resolve(*t, stack))),
                 Leaf::BrIf(t) => out.push(Exp::Br("BrIf", resolve(*t, stack))),
                 Leaf::BrTable(ts, d) => out.push(Exp::BrTable(
@@ -375,6 +401,20 @@ impl<'a, 'b> Plan<'a, 'b> {
                                 b.unop_at(pos, UnaryOp::I32Eqz);
                             } else {
                                 b.unop(UnaryOp::I32Eqz);
+                            }
+                        }
+                        Leaf::I64Const(v) => {
+                            if use_at {
+                                b.const_at(pos, Value::I64(*v));
+                            } else {
+                                b.i64_const(*v);
+                            }
+                        }
+                        Leaf::F32Const(v) => {
+                            if use_at {
+                                b.const_at(pos, Value::F32(f32::from_bits(*v)));
+                            } else {
+                                b.f32_const(f32::from_bits(*v));
                             }
                         }
                         Leaf::Br(t) => {
@@ -548,7 +588,7 @@ pub fn build_case(bytes: &[u8]) -> BuiltCase {
     let n_extra = 1 + ch.below(4);
     let mut local_types: Vec<ValType> = param_tys.clone();
     for _ in 0..n_extra {
-        local_types.push(if ch.chance(3, 4) { ValType::I32 } else { ValType::I64 });
+        local_types.push(*ch.pick(&[ValType::I32, ValType::I64, ValType::I32, ValType::F32, ValType::I64]));
     }
     // guarantee an i32 local
     local_types.push(ValType::I32);
@@ -558,8 +598,19 @@ pub fn build_case(bytes: &[u8]) -> BuiltCase {
         .filter(|(_, t)| **t == ValType::I32)
         .map(|(i, _)| i)
         .collect();
+    let of = |t: ValType| -> Vec<usize> {
+        local_types
+            .iter()
+            .enumerate()
+            .filter(|(_, x)| **x == t)
+            .map(|(i, _)| i)
+            .collect()
+    };
+    let (i64_locals, f32_locals) = (of(ValType::I64), of(ValType::F32));
     let mut g = Gen {
         ch: &mut ch,
+        i64_locals,
+        f32_locals,
         i32_locals,
         budget: 80,
         nontrivial_br: false,
@@ -685,6 +736,16 @@ pub fn check(_ctx: &Ctx, input: &Input) -> CaseResult {
                     return Err(bad("constant"));
                 }
             }
+            Exp::Const64(k) => {
+                if o.name != "I64Const" || o.imms != vec![Imm::I64(*k)] {
+                    return Err(bad("constant"));
+                }
+            }
+            Exp::ConstF32(k) => {
+                if o.name != "F32Const" || o.imms != vec![Imm::F32(*k)] {
+                    return Err(bad("constant"));
+                }
+            }
             Exp::Local(n, a) => {
                 if o.name != *n {
                     return Err(bad("operator"));
@@ -777,6 +838,8 @@ fn same_shape(o: &crate::ops::Op, e: &Exp) -> bool {
     match e {
         Exp::Op(n) | Exp::Local(n, _) | Exp::Br(n, _) | Exp::Open(n, _) => o.name == *n,
         Exp::Const(_) => o.name == "I32Const",
+        Exp::Const64(_) => o.name == "I64Const",
+        Exp::ConstF32(_) => o.name == "F32Const",
         Exp::BrTable(..) => o.name == "BrTable",
     }
 }
